@@ -135,7 +135,7 @@ func embeddedIn(n *types.Named, typ *types.TypeName, depth int) bool {
 	}
 	for i := 0; i < st.NumFields(); i++ {
 		f := st.Field(i)
-		if !f.Embedded() && f.Exported() {
+		if !f.Embedded() && f.Exported() && !partFieldX4(typ.Type(), f) {
 			// (an unexported field holding an unexported struct by value is a part as well: `in byteSource`)
 			continue
 		}
